@@ -4,4 +4,6 @@ CONSTANTS
   Progs <- MCProgs
   W = 2
   Locked = TRUE
+  Login = FALSE
+  SwapUnderLock = TRUE
 PROPERTY Terminates
